@@ -130,12 +130,17 @@ structure Root (r : Raw) (ch : List Nat) : Prop where
   prev : PrevOk r 0 ch
   len : ch.length ≤ 100
   slots : ∀ x ∈ dirSlots r 2 ch, SlotOk r (hdrTotal r) x
+  /-- no name of the volume directory contains a `/` (a2kit validates names; the paths of the files of a sub-directory,
+  `DIR/NAME`, are then different from every name of the volume directory) -/
+  names : ∀ x ∈ dirSlots r 2 ch, isAct x = true → 47 ∉ trimName x.1
 
 instance (r : Raw) (ch : List Nat) : Decidable (Root r ch) :=
-  haveI : Decidable ((StdGeo r 2 ∧ PrevOk r 0 ch) ∧ (ch.length ≤ 100 ∧ ∀ x ∈ dirSlots r 2 ch, SlotOk r (hdrTotal r) x)) := by
+  haveI : Decidable ((StdGeo r 2 ∧ PrevOk r 0 ch) ∧ (ch.length ≤ 100 ∧ (∀ x ∈ dirSlots r 2 ch, SlotOk r (hdrTotal r) x) ∧
+      ∀ x ∈ dirSlots r 2 ch, isAct x = true → 47 ∉ trimName x.1)) := by
     unfold StdGeo; infer_instance
-  decidable_of_iff ((StdGeo r 2 ∧ PrevOk r 0 ch) ∧ (ch.length ≤ 100 ∧ ∀ x ∈ dirSlots r 2 ch, SlotOk r (hdrTotal r) x))
-    ⟨fun h => ⟨h.1.1, h.1.2, h.2.1, h.2.2⟩, fun h => ⟨⟨h.geo, h.prev⟩, h.len, h.slots⟩⟩
+  decidable_of_iff ((StdGeo r 2 ∧ PrevOk r 0 ch) ∧ (ch.length ≤ 100 ∧ (∀ x ∈ dirSlots r 2 ch, SlotOk r (hdrTotal r) x) ∧
+      ∀ x ∈ dirSlots r 2 ch, isAct x = true → 47 ∉ trimName x.1))
+    ⟨fun h => ⟨h.1.1, h.1.2, h.2.1, h.2.2.1, h.2.2.2⟩, fun h => ⟨⟨h.geo, h.prev⟩, h.len, h.slots, h.names⟩⟩
 
 /-- **the on-disk invariant** -/
 structure Inv (r : Raw) : Prop where
